@@ -18,8 +18,8 @@ from harness import comp_common as cc
 from harness import c05
 
 
-def gen_case(rng):
-    nin = rng.choice([1, 2, 2, 3, 3, 4])
+def gen_case(rng, narrow=False):
+    nin = rng.choice([1, 2, 2, 3, 3, 4]) if not narrow else rng.choice([1, 2, 2])
     nalpha = rng.choice([0, 0, 1, 2])
     alpha_lim = tuple(rng.choice([1, 2]) for _ in range(nalpha))
     if nin <= 2:
@@ -38,6 +38,10 @@ def gen_case(rng):
         w = rng.choice([1.0, 2.0, 0.5, 8.0, 1e-2])
         domains.append((lo, lo + w))
     norms_in = [rng.choice([None, None, 'linear(0.5, 1)', 'minmax']) for _ in range(nin)]
+    if narrow:      # at least one un-normalised input on a narrow band far from the origin in every run
+        for d_ in range(nin):
+            domains[d_] = rng.choice([(2450.0, 2450.02), (-1.0e4, -1.0e4 + 0.05), (3.0e5, 3.0e5 + 2.0)])
+            norms_in[d_] = None
     norms_out = [rng.choice([None, None, 'linear(2, -1)']) for _ in range(nout)]
     nsteps = rng.randint(2, 8 if nin <= 2 else 5)
     surr_lim = tuple(rng.choice([1, 2]) for _ in range(rng.choice([0, 0, 0, 1])))
@@ -138,6 +142,33 @@ def run_case(ctx, res, case, lines, post):
         except Exception as e:  # noqa: BLE001
             res.failures.append({'kind': 'predict-raised', 'input': {**case, 'mode': mode}, 'observed': repr(e)[:300]})
             continue
+        # the same points handed over in other array types (an integer sweep / single precision for the FIRST input, whose
+        # values are chosen exactly representable): the surrogate is a function of the point, not of the array's dtype
+        if nin >= 2 and mode == 'test':
+            doms = comp.inputs.get_domains()
+            lb0, ub0 = map(float, doms[names[0]])
+            ints = [v for v in range(int(np.ceil(lb0 - 2)), int(np.floor(ub0 + 2)) + 1)][:6]
+            if ints:
+                rest = [pts[k % len(pts)] for k in range(len(ints))]
+                for dt in (np.int64, np.float32):
+                    Xd = {n: np.array([r[d] for r in rest]) for d, n in enumerate(names)}
+                    X64 = dict(Xd); X64[names[0]] = np.array(ints, dtype=np.float64)
+                    Xd[names[0]] = np.array(ints, dtype=dt)
+                    try:
+                        ya, yb = comp.predict(X64, index_set=mode), comp.predict(Xd, index_set=mode)
+                    except Exception as e:  # noqa: BLE001
+                        res.failures.append({'kind': 'predict-raised', 'input': {**case, 'mode': mode, 'dtype': str(dt)},
+                                             'observed': repr(e)[:300]})
+                        continue
+                    for o in out_names:
+                        a_, b_ = np.asarray(ya[o], dtype=float), np.asarray(yb[o], dtype=float)
+                        sc_ = max(1.0, float(np.max(np.abs(a_)))) if np.all(np.isfinite(a_)) else 1.0
+                        if not np.allclose(a_, b_, rtol=0, atol=1e-11 * sc_, equal_nan=True):
+                            res.failures.append({'kind': 'surrogate-value-depends-on-the-dtype-of-the-input-arrays',
+                                                 'input': {**case, 'mode': mode, 'dtype': np.dtype(dt).name, 'first_input': ints,
+                                                           'other_coordinates': rest, 'history': [list(a) + list(b) for a, b in hist]},
+                                                 'observed': b_.tolist(), 'expected': a_.tolist()})
+                    res.hit('dtype-' + np.dtype(dt).name)
         for exact in (False, True):
             lines.append('itp.reset'); post.append(None)
             for (a, b) in sorted(iset):
@@ -197,7 +228,7 @@ def run(ctx: core.Ctx, only=None) -> core.Result:
                 'indices.')
     lines, post = [], []
     keys = ('nin', 'alpha_lim', 'beta_lim', 'kpl', 'nout', 'domains', 'norms_in', 'norms_out', 'nsteps', 'fseed', 'surr_lim')
-    cases = [o.get('input', o) for o in only] if only is not None else core.corpus_cases(ctx.prop) + [gen_case(ctx.rng) for _ in range(ctx.scale(20, 250))]
+    cases = [o.get('input', o) for o in only] if only is not None else core.corpus_cases(ctx.prop) + [gen_case(ctx.rng) for _ in range(ctx.scale(17, 230))] + [gen_case(ctx.rng, narrow=True) for _ in range(ctx.scale(3, 20))]
     for case in cases:
         case = {k: (tuple(case[k]) if k in ('alpha_lim', 'beta_lim') else case.get(k)) for k in keys}
         with core.guarded(res, 'scenario-raised', case):
